@@ -874,8 +874,14 @@ def oracle_grading_inverted(L, chops):
     with warnings.catch_warnings():
         warnings.simplefilter("ignore")
         g = Grading(L)
+        # the reversal is a function of the sections the grading has when it is asked for: in half of the cases (chosen
+        # by the input, so that replays agree) it has been looked at before, while the grading was still growing
+        import hashlib
+        peek = int(hashlib.sha1(json.dumps([L, [[lr, sorted(kw.items())] for lr, kw in chops]]).encode()).hexdigest()[:4], 16) % 2 == 1
         for lr, kw in chops:
             g.add_chop(Chop(length_ratio=lr, **kw))
+            if peek:
+                _ = g.inverted.specification
         spec = [list(x) for x in g.specification]
         inv = g.inverted
         ispec = [list(x) for x in inv.specification]
@@ -1152,6 +1158,26 @@ class C03(Prop):
                 bad = oracle_chop(L, kw, ob, tau) or ("unrealisable-accepted", "accepted")
                 res.oracle_failures.append(dict(kind="chop", length=L, chop=kw, code=bad[0], why=bad[1], count=ob["n"],
                                                 total_expansion=float(ob["E"]) if is_real(ob["E"]) else repr(ob["E"])))
+
+        # (2c) counts given as non-integer numbers (count = length / size is the usual script): the documented
+        # normalisation is truncation, and the returned pair obeys the law for the truncated count (oracle only)
+        for i in range(ctx.n(40, 600)):
+            L = draw_L(rng)
+            n = rng.choice([1, 2, 2, 3, 7, 10, 40, 199]) + rng.choice([0.0, 0.25, 0.5, 0.9, 0.99])
+            other = rng.choice(["c2c_expansion", "total_expansion", "start_size", "end_size", None])
+            kw = {"count": n}
+            if other == "c2c_expansion":
+                kw[other] = draw_r(rng, int(n))
+            elif other == "total_expansion":
+                kw[other] = rng.choice([0.2, 0.5, 2.0, 5.0, 1.0])
+            elif other is not None:
+                kw[other] = L / max(int(n), 1) * rng.choice([0.3, 0.6, 1.0, 1.7])
+            res.evaluations += 1
+            res.count("fractional count")
+            res.distinct.add(json.dumps(["frac", L, sorted(kw.items())]))
+            ob, bad = check_chop(L, kw, tau)
+            if bad:
+                res.oracle_failures.append(bad)
 
         # (3) inversion of chops
         for pair in TEN_PAIRS:
